@@ -2,16 +2,35 @@
    over observations only (arena bytes before, changed bytes, values read, compiler offsets of the selector
    paths the request names).  Independent of the model.  No proofs here. *)
 From Coq Require Import List String ZArith NArith Bool Arith.
-From Golem Require Export Check.DeriveSel.
+From Golem Require Export Check.DeriveSel Optics.Conv.
 Import ListNotations.
 
 (* how an optic was built (the leaves are optics.ForProduct1[T, A](attr...)) *)
 Inductive cop :=
 | CField (T A : ty) (attr : list string)
 | CJoin (a b : cop)
-| CConv (kind : N) (x : cop) (code : N).        (* kind 0 = BiMap, 1 = Getter, 2 = Setter; code 0 = identity on bytes, 1 = xor 0x5a *)
+| CConv (kind : N) (x : cop) (code : N) (B : ty).
+(* kind 0 = BiMap, 1 = Getter, 2 = Setter, exposing the values of x as B;
+   code 0 = identity on bytes (BiMapS/B/I/F between types of one representation), 1 = xor 0x5a,
+   2 = conversion between signed integer types by value (BiMapI across widths: sign extension / truncation) *)
 
-Record ciso := mkI { ci_sa : cop; ci_spath : list nat; ci_ta : cop; ci_tpath : list nat; ci_A : ty }.
+(* the type of the values the optic reads and writes, and the type of the field it lies on *)
+Fixpoint cop_ty (o : cop) : ty :=
+  match o with CField _ A _ => A | CJoin _ b => cop_ty b | CConv _ _ _ B => B end.
+Fixpoint cop_focus_ty (o : cop) : ty :=
+  match o with CField _ A _ => A | CJoin _ b => cop_focus_ty b | CConv _ x _ _ => cop_focus_ty x end.
+
+Fixpoint cop_eqb (a b : cop) : bool :=
+  match a, b with
+  | CField T A attr, CField T' A' attr' => ty_eqb T T' && ty_eqb A A' && list_eqb String.eqb attr attr'
+  | CJoin x y, CJoin x' y' => cop_eqb x x' && cop_eqb y y'
+  | CConv k x c B, CConv k' x' c' B' => N.eqb k k' && cop_eqb x x' && N.eqb c c' && ty_eqb B B'
+  | _, _ => false
+  end.
+
+Record ciso := mkI { ci_sa : cop; ci_spath : list nat; ci_ta : cop; ci_tpath : list nat }.
+Definition ci_sA (i : ciso) : ty := cop_focus_ty (ci_sa i).
+Definition ci_tA (i : ciso) : ty := cop_focus_ty (ci_ta i).
 
 Inductive req :=
 | RLens (o : cop) (kind code : N) (B : ty) (fpath : list nat) (outer : option (list nat * ty))
@@ -28,8 +47,9 @@ Inductive obs :=
 
 Record case := mkc { c_shape : shape; c_req : req; c_obs : obs }.
 
-Definition conv (code : N) (v : list Z) : list Z :=
-  match code with 0%N => v | _ => map (fun b => Z.lxor b 90) v end.
+(* the conversion [code] of a value v into a type of n bytes *)
+Definition conv (code : N) (n : nat) (v : list Z) : list Z :=
+  match code with 0%N => v | 1%N => map (fun b => Z.lxor b 90) v | _ => sresize n v end.
 
 Definition range_of (sh : shape) (p : list nat) (t : ty) : option (nat * nat) :=
   match compiler_off sh p with Some off => Some ((sh_base sh + Z.to_nat off)%nat, sizeof t) | None => None end.
@@ -40,31 +60,42 @@ Definition in_ranges (rs : list (nat * nat)) (i : Z) : bool := existsb (fun r =>
 Definition ignorable (sh : shape) (foci : list (nat * ty)) (i : Z) : bool :=
   nth (Z.to_nat i) (arena_mask (List.length (sh_before sh)) foci) false.
 
-Definition lens_ok (sh : shape) (kind code : N) (B : ty) (fpath : list nat) (outer : option (list nat * ty)) (o : lobs) : bool :=
-  match range_of sh fpath B with
+(* the values of a conversion lens on which Put then Get is claimed to return the value: all of them when the
+   conversions are mutually inverse everywhere (codes 0, 1; code 2 onto a type that is not wider than the field),
+   else those that fit the field (C04_bimapI_lawful_on) *)
+Definition putget_claimed (code : N) (nA : nat) (v : list Z) : bool :=
+  match code with 0%N | 1%N => true | _ => representableb nA v end.
+
+(* [c] is the optic as built: its focus is the field of type [cop_focus_ty c] at the selector path [fpath], the values
+   it reads and writes have type B *)
+Definition lens_ok (sh : shape) (c : cop) (kind code : N) (B : ty) (fpath : list nat) (outer : option (list nat * ty)) (o : lobs) : bool :=
+  let A := cop_focus_ty c in
+  let nB := sizeof B in
+  match range_of sh fpath A with
   | None => false
   | Some (a, n) =>
       let before := sh_before sh in
       let after := apply_diff before (lo_diff o) in
       let foci := match outer with
                   | Some (p, t) => match range_of sh p t with Some (a', _) => [(a', t)] | None => [] end
-                  | None => [(a, B)]
+                  | None => [(a, A)]
                   end in
       negb (lo_pput o) && lo_same o &&
       match kind with
       | 0%N =>   (* a lens on the converted value: GetPut / PutGet on observations, frame *)
-          match lo_get0 o with Some g => val_eqb B g (conv code (slice_of before a n)) | None => false end &&
+          match lo_get0 o with Some g => val_eqb B g (conv code nB (slice_of before a n)) | None => false end &&
           forallb (fun d => in_rangeZ a n (fst d) || ignorable sh foci (fst d)) (lo_diff o) &&
-          val_eqb B (slice_of after a n) (conv code (lo_v o)) &&
-          match lo_get1 o with Some g => val_eqb B g (lo_v o) | None => false end
+          val_eqb A (slice_of after a n) (conv code n (lo_v o)) &&
+          (negb (putget_claimed code n (lo_v o)) ||
+           match lo_get1 o with Some g => val_eqb B g (lo_v o) | None => false end)
       | 1%N =>   (* Getter never writes *)
-          match lo_get0 o with Some g => val_eqb B g (conv code (slice_of before a n)) | None => false end &&
+          match lo_get0 o with Some g => val_eqb B g (conv code nB (slice_of before a n)) | None => false end &&
           match lo_diff o with [] => true | _ => false end &&
           opt_eqb lz_eqb (lo_get0 o) (lo_get1 o)
       | _ =>     (* Setter writes exactly the converted value; Get is the zero value *)
           forallb (fun d => in_rangeZ a n (fst d)) (lo_diff o) &&
-          val_eqb B (slice_of after a n) (conv code (lo_v o)) &&
-          opt_eqb lz_eqb (lo_get0 o) (Some (repeat 0%Z n)) && opt_eqb lz_eqb (lo_get1 o) (Some (repeat 0%Z n))
+          val_eqb A (slice_of after a n) (conv code n (lo_v o)) &&
+          opt_eqb lz_eqb (lo_get0 o) (Some (repeat 0%Z nB)) && opt_eqb lz_eqb (lo_get1 o) (Some (repeat 0%Z nB))
       end
   end.
 
@@ -100,17 +131,54 @@ Definition shape_ok (sh : shape) (L : list oentry) (tys : list ty) (attr : list 
   end.
 
 (* ---- Iso / Morphism ---- *)
-Definition same_iso (x y : ciso) : bool := path_eqb (ci_spath x) (ci_spath y) && path_eqb (ci_tpath x) (ci_tpath y).
+Definition same_iso (x y : ciso) : bool :=
+  path_eqb (ci_spath x) (ci_spath y) && path_eqb (ci_tpath x) (ci_tpath y) &&
+  cop_eqb (ci_sa x) (ci_sa y) && cop_eqb (ci_ta x) (ci_ta y).
 
 Definition somes {A} (l : list (option A)) : list A := flat_map (fun o => match o with Some x => [x] | None => [] end) l.
 
+(* The round trip is claimed for entries with a lawful source optic and a lawful target optic (C04_morphism_roundtrip).
+   Getter and Setter are not lenses; a BiMap is one where its conversions are mutually inverse:
+   [src_lossless]: g (f a) = a for EVERY content a of the field - Get then Put restores it (a conversion by value must
+   not narrow the field's value);
+   [sig_bytes]: a value read through the optic is the sign extension of that many low bytes;
+   [dst_lossless n]: f (g b) = b for every b that is the sign extension of its n low bytes - Put then Get returns b. *)
+Fixpoint src_lossless (o : cop) : bool :=
+  match o with
+  | CField _ _ _ => true
+  | CJoin a b => src_lossless a && src_lossless b
+  | CConv 0%N x code B =>
+      src_lossless x && match code with 0%N | 1%N => true | _ => Nat.leb (sizeof (cop_ty x)) (sizeof B) end
+  | CConv _ _ _ _ => false
+  end.
+Fixpoint sig_bytes (o : cop) : nat :=
+  match o with
+  | CField _ A _ => sizeof A
+  | CJoin _ b => sig_bytes b
+  | CConv _ x code B => match code with 0%N => sig_bytes x | 1%N => sizeof B | _ => Nat.min (sig_bytes x) (sizeof B) end
+  end.
+Fixpoint dst_lossless (n : nat) (o : cop) : bool :=
+  match o with
+  | CField _ _ _ => true
+  | CJoin a b => src_lossless a && dst_lossless n b
+  | CConv 0%N x code B =>
+      match code with
+      | 0%N => dst_lossless n x
+      | 1%N => dst_lossless (sizeof (cop_ty x)) x
+      | _ => (Nat.leb (sizeof B) (sizeof (cop_ty x)) || Nat.leb n (sizeof (cop_ty x))) && dst_lossless (Nat.min n (sizeof (cop_ty x))) x
+      end
+  | CConv _ _ _ _ => false
+  end.
+Definition ci_lawful (i : ciso) : bool := src_lossless (ci_sa i) && dst_lossless (sig_bytes (ci_sa i)) (ci_ta i).
+
 Definition morph_ok (sh : shape) (isos : list (option ciso)) (before_s2 : list Z) (pf pi : bool) (ds1 dt1 ds2 dt2 : list (Z * Z)) : bool :=
   let is := somes isos in
-  match all_some (map (fun i => range_of sh (ci_spath i) (ci_A i)) is), all_some (map (fun i => range_of sh (ci_tpath i) (ci_A i)) is) with
+  match all_some (map (fun i => range_of sh (ci_spath i) (ci_sA i)) is), all_some (map (fun i => range_of sh (ci_tpath i) (ci_tA i)) is) with
   | Some srs, Some trs =>
-      let sfoci := map (fun x => (fst (fst x), ci_A (snd x))) (zip srs is) in
-      let tfoci := map (fun x => (fst (fst x), ci_A (snd x))) (zip trs is) in
-      let hyp := forallb (fun p => let '((i, ri), (j, rj)) := p in negb (ranges_overlap ri rj) || same_iso i j) (pairs (zip is trs)) in
+      let sfoci := map (fun x => (fst (fst x), ci_sA (snd x))) (zip srs is) in
+      let tfoci := map (fun x => (fst (fst x), ci_tA (snd x))) (zip trs is) in
+      let hyp := forallb ci_lawful is &&
+                 forallb (fun p => let '((i, ri), (j, rj)) := p in negb (ranges_overlap ri rj) || same_iso i j) (pairs (zip is trs)) in
       negb pf && negb pi &&
       match ds1 with [] => true | _ => false end &&                                   (* Forward never writes the source *)
       forallb (fun d => in_ranges trs (fst d) || ignorable sh tfoci (fst d)) dt1 &&      (* .. and only target foci *)
@@ -119,7 +187,7 @@ Definition morph_ok (sh : shape) (isos : list (option ciso)) (before_s2 : list Z
       (* the round trip s -> t -> s2 makes every source focus of s2 equal to that of s *)
       (negb hyp ||
        forallb (fun x => let '(r, i) := x in
-                         val_eqb (ci_A i) (slice_of (apply_diff before_s2 ds2) (fst r) (snd r)) (slice_of (sh_before sh) (fst r) (snd r)))
+                         val_eqb (ci_sA i) (slice_of (apply_diff before_s2 ds2) (fst r) (snd r)) (slice_of (sh_before sh) (fst r) (snd r)))
                (zip srs is))
   | _, _ => false
   end.
@@ -140,7 +208,7 @@ Definition c_attr_short (attr : list string) (tys : list ty) : bool :=
 Definition oracle (c : case) : bool :=
   let sh := c_shape c in
   match c_req c, c_obs c with
-  | RLens _ kind code B fpath outer, OLens o => lens_ok sh kind code B fpath outer o
+  | RLens op kind code B fpath outer, OLens o => lens_ok sh op kind code B fpath outer o
   | RShape tys attr, OLenses obs => match sh_listing sh with Some L => shape_ok sh L tys attr obs | None => false end
   | RShape tys attr, OPanic =>
       (* a ShapeN of N fields of this struct must exist *)
